@@ -116,6 +116,33 @@ func UF2(fn string, x, y int) int {
 	return int(rf.UF["uf_"+fn][fmt.Sprint(uint64(x))+","+fmt.Sprint(uint64(y))])
 }
 
+// Rank1 is an uninterpreted function into 0..15.
+func Rank1(fn string, x int) int {
+	load()
+	return int(rf.UF["uf_"+fn][fmt.Sprint(uint64(x))] & 15)
+}
+
+// SameTerms: (engine) the slices hold syntactically the same symbolic values;
+// natively it is a plain multiset comparison.
+func SameTerms(a, b []int) bool {
+	if len(a) != len(b) {
+		return false
+	}
+	m := map[int]int{}
+	for _, x := range a {
+		m[x]++
+	}
+	for _, x := range b {
+		m[x]--
+	}
+	for _, v := range m {
+		if v != 0 {
+			return false
+		}
+	}
+	return true
+}
+
 type assumeFailed struct{}
 
 func Assume(c bool) {
